@@ -6,6 +6,8 @@ from ..refs.evq import QueueMonitor, OWNER
 
 @register('queue')
 class LineQueue(QueueMonitor):
+    early = True
+
     def __init__(self, ctx):
         self.ctx = ctx
         exact = True
